@@ -684,8 +684,16 @@ pub fn judge(rep: &mut Report, sc: &Scenario, b: &Built, r: &WorldResult, kv: &c
             let failed = ops.iter().find(|o| o.failed);
             match (failed, b.trigger_at) {
                 (Some(f), Some(t)) if f.step as usize == t && matches!(sc.trigger, Trigger::Complete) => {
-                    let nth = ops.iter().filter(|o| o.step as usize == t && o.mut_index <= f.mut_index).count();
-                    format!("/kv-failure@commit-write-{}", nth)
+                    // which record of the commit could not be written (the position of the write
+                    // inside the step is not stable: a resumption-cache flush may interleave)
+                    let rec = if f.key < rs_matter::persist::BASIC_INFO_KEY {
+                        "fabric-record"
+                    } else if f.key == rs_matter::persist::NETWORKS_KEY {
+                        "networks-record"
+                    } else {
+                        "other-record"
+                    };
+                    format!("/kv-failure@commit-{}", rec)
                 }
                 (Some(_), _) => "/kv-failure@elsewhere".to_string(),
                 _ => "/kv-failure@not-reached".to_string(),
